@@ -60,6 +60,8 @@ def make_plan(seed: int, tier: str) -> dict:
     cfg["decisions"] = {k: v for k, v in cfg["decisions"].items() if int(k) <= n_iter}
     if cfg.get("n_burn_in_iter") is not None and not cfg.get("annealing") and st.bernoulli(0.3):
         cfg["via_load_parameters"] = True
+    elif st.bernoulli(0.2):
+        cfg["second_run"] = True
     ann = cfg.get("annealing")
     if ann:
         # (n_iter was re-drawn above) keep the tempered configuration admissible: at least n_plateau - 1 annealing iterations
@@ -239,6 +241,17 @@ def run_plan(plan: dict) -> dict:
             out["discarded"] = f"fit_raised:{type(exc).__name__}"
     elif C["steps.mstep"] != cfg["n_iter"]:
         violation(out, "recursion", "number_of_maximisation_steps", f"{C['steps.mstep']} != {cfg['n_iter']}")
+    elif cfg.get("second_run") and valid_power and not out["violations"] and not cfg.get("via_load_parameters"):
+        # the same algorithm object run once more on a fresh model: the schedule starts over with it
+        n_viol = len(out["violations"])
+        mon2 = C05Monitor(out, cfg)
+        world.monitors = [mon2]
+        exc2 = world.run(rerun=True)
+        C["probe.algorithm_object_run_twice"] += 1
+        if isinstance(exc2, (fitsim.RerunSetupFailed, LeaspyConvergenceError)):
+            C["skip.second_run_not_completed"] += 1
+        for v in out["violations"][n_viol:]:
+            v["sig"] = v["sig"] + ":second_run_of_the_same_algorithm_object"
     C[f"model.{cfg['kind']}"] += 1
     key = (cfg["n_iter"], cfg.get("n_burn_in_iter"), cfg.get("n_burn_in_iter_frac"), str(power), cfg["kind"], cfg["sampler_pop"], sorted(cfg["decisions"].items()))
     out["keys"].add("run:" + hashlib.sha1(repr(key).encode()).hexdigest()[:16])
